@@ -192,3 +192,5 @@ pub mod c07;
 pub mod c08;
 pub mod c09;
 pub mod c33;
+pub mod c34;
+pub mod c34tx;
